@@ -1,5 +1,68 @@
+/-
+C08 — Negotiation picks a closed, parent-first commit set covering every want.
+Property theorems only. Model: Model/Finder.lean (pkg/api/utils/closed_sets_finder.go). The theorems
+are about the walk from one want (`walkWant`, the core of `enqueueWants`); the multi-round /
+multi-want bookkeeping (`Process`) is tied to the code by the correspondence runs and the same
+clauses (`finderVerdict`) evaluated by Lean on the implementation's actual output.
+-/
 import WrglModel.Model.Finder
 import WrglModel.Spec.Finder
+import WrglModel.Lemmas.C08
+import WrglModel.Gen.Facts
 namespace Wrgl
-theorem C08_placeholder : True := trivial
+
+theorem C08_fact_revisit : Facts.finderRevisitsWithinDepth = true := by decide
+
+/-- The walk lists exactly the unfolding tree below the want that avoids common tips (one entry per
+    path), and selects tables exactly for the visits within the requested depth (all when depth = 0). -/
+theorem C08_walk_lists_unfolding (g : Graph) (hwf : g.wf = true) (hac : Acyclic g)
+    (commons : List Nat) (depth : Nat) (w : Nat) (hw : (g.get? w).isSome = true)
+    (fuel : Nat) (cl tl sums : List Nat) (steps : Nat)
+    (h : walkWant Facts.finderRevisitsWithinDepth g commons [] depth false fuel [(w, 0)] [] [] [] 0 = .ok (some (cl, tl, sums, steps))) :
+    cl.Perm ((unfoldTree g (fun x => commons.contains x) (g.length + 1) w 0).map (·.1)) ∧
+    tl.Perm (((unfoldTree g (fun x => commons.contains x) (g.length + 1) w 0).filter
+              (fun nd => depth == 0 || decide (nd.2 < depth))).map (·.1)) :=
+  walkWant_spec _ g hwf hac commons depth w hw fuel cl tl sums steps h
+
+/-- Closed: every ancestor of the want is listed unless every path to it runs into a common tip
+    (in which case it is an ancestor of that acknowledged common commit). -/
+theorem C08_closed (g : Graph) (hwf : g.wf = true) (hac : Acyclic g) (stop : Nat → Bool) (w a : Nat)
+    (hw : (g.get? w).isSome = true) (hr : Reach g a w) :
+    (∃ d, (a, d) ∈ unfoldTree g stop (g.length + 1) w 0) ∨
+    (∃ s, stop s = true ∧ Reach g a s ∧ Reach g s w) :=
+  unfoldTree_closed g hwf hac stop w a hw hr
+
+/-- Nothing unreachable from the want is sent. -/
+theorem C08_only_reachable (g : Graph) (hwf : g.wf = true) (hac : Acyclic g) (stop : Nat → Bool) (w a : Nat)
+    (hw : (g.get? w).isSome = true) :
+    (∃ d, (a, d) ∈ unfoldTree g stop (g.length + 1) w 0) → Reach g a w :=
+  unfoldTree_mem g hwf hac stop w a hw
+
+/-- Parent-first: the first occurrence of a commit in the list is preceded by each of its parents,
+    unless that parent is an acknowledged common tip. -/
+theorem C08_parent_first (g : Graph) (hwf : g.wf = true) (hac : Acyclic g)
+    (commons : List Nat) (depth : Nat) (w : Nat) (hw : (g.get? w).isSome = true)
+    (fuel : Nat) (cl tl sums : List Nat) (steps : Nat)
+    (h : walkWant Facts.finderRevisitsWithinDepth g commons [] depth false fuel [(w, 0)] [] [] [] 0 = .ok (some (cl, tl, sums, steps)))
+    (a p : Nat) (i : Nat) (hi : firstIndex cl a = some i) (hp : p ∈ parentsOf g a) :
+    commons.contains p = true ∨ p ∈ cl.take i :=
+  walkWant_parent_first _ g hwf hac commons depth w hw fuel cl tl sums steps h a p i hi hp
+
+/-- The walk terminates on every (acyclic) history. -/
+theorem C08_terminates (g : Graph) (hwf : g.wf = true) (hac : Acyclic g)
+    (commons : List Nat) (depth : Nat) (w : Nat) (hw : (g.get? w).isSome = true) :
+    ∃ fuel r, walkWant Facts.finderRevisitsWithinDepth g commons [] depth false fuel [(w, 0)] [] [] [] 0 = .ok (some r) :=
+  walkWant_terminates _ g hwf hac commons depth w hw
+
+/-- full-strength complexity clause: the list length is polynomial in the history size -/
+def C08_steps_poly_full : Prop :=
+  ∃ c : Nat, ∀ (g : Graph) (w : Nat), g.wf = true → Acyclic g →
+    (unfoldTree g (fun _ => false) (g.length + 1) w 0).length ≤ c * (g.length + 1) ^ 2
+
+/-- … which FAILS on this tree (known finding C08-exponential-walk): a chain of k diamonds
+    (3k+1 commits) costs at least 2^k list entries. -/
+theorem C08_steps_exponential (k : Nat) :
+    2 ^ k ≤ (unfoldTree (diamondChain k) (fun _ => false) ((diamondChain k).length + 1) (3 * k + 1) 0).length :=
+  unfoldTree_exponential k
+
 end Wrgl
